@@ -26,6 +26,7 @@ try:
         t0 = time.time()
         p = subprocess.run([os.path.join(here, "bin", "vcheck"), c, "--repo", scratch], capture_output=True, text=True, timeout=3600)
         lines = [l for l in p.stdout.splitlines() if l.startswith(("VIOLATION", "UNDECIDED", "CHECKER-FAULT"))]
+        lines.sort(key=lambda l: 0 if l.startswith("VIOLATION") else 1)       # what is kept in meta.json: the violations first
         res[c] = {"exit": p.returncode, "seconds": round(time.time() - t0, 1), "lines": [l.replace(scratch, "<scratch>")[:300] for l in lines[:6]]}
     ok = applied and "90 passed" in tests and d1.returncode == 1 and d0.returncode == 0
     print(json.dumps({"applied": applied, "tests": tests, "demo_with": d1.returncode, "demo_without": d0.returncode, "confirmed": ok, "checks": res}, indent=1))
